@@ -10,7 +10,9 @@ pub(crate) fn track_and_groundspeed(
     message: &[u32],
     is_supersonic: bool,
 ) -> (Option<u32>, Option<u32>) {
+    // a velocity component field of 0 means "no information available"
     let sp_west = match flag_and_range_value(message, 46, 47, 56) {
+        Some((_, 0)) => return (None, None),
         Some((dir_west, speed_west)) => match dir_west {
             1 => -(speed_west as f64 - 1.0),
             _ => speed_west as f64 - 1.0,
@@ -19,6 +21,7 @@ pub(crate) fn track_and_groundspeed(
     };
 
     let sp_south = match flag_and_range_value(message, 57, 58, 67) {
+        Some((_, 0)) => return (None, None),
         Some((dir_south, speed_south)) => match dir_south & 1 {
             1 => -(speed_south as f64 - 1.0),
             _ => speed_south as f64 - 1.0,
